@@ -128,6 +128,7 @@ func (workerPoolSelf *DefaultWorkerPool) trySpawn() {
 		expectedWorkerCount = workerPoolSelf.workerCount + 1
 	}
 	workerPoolSelf.lock.RUnlock()
+	verifPoint("wp.spawn.decided", workerPoolSelf)
 
 	if workerPoolSelf.workerCount < expectedWorkerCount {
 		for i := workerPoolSelf.workerCount; i < expectedWorkerCount; i++ {
@@ -151,6 +152,7 @@ func (workerPoolSelf *DefaultWorkerPool) spawnLoop() {
 	}()
 
 	for range workerPoolSelf.spawnWorkerCh {
+		verifPoint("wp.spawn.woken", workerPoolSelf)
 		if workerPoolSelf.IsClosed() {
 			break
 		}
@@ -178,6 +180,7 @@ func (workerPoolSelf *DefaultWorkerPool) generateWorkerWithMaximum(maximum int) 
 	// workerID := time.Now()
 	workerPoolSelf.lastAliveTime = time.Now()
 	workerPoolSelf.workerCount++
+	verifPoint("wp.gen.counted", workerPoolSelf)
 	isBusy := false
 
 	go func() {
@@ -188,12 +191,14 @@ func (workerPoolSelf *DefaultWorkerPool) generateWorkerWithMaximum(maximum int) 
 					handler(panic)
 				}
 			}
+			verifPoint("wp.worker.exit.pre", workerPoolSelf)
 
 			workerPoolSelf.lock.Lock()
 			workerPoolSelf.workerCount--
 			if isBusy {
 				workerPoolSelf.workerBusy--
 			}
+			verifPoint("wp.worker.exit.post", workerPoolSelf)
 			workerPoolSelf.lock.Unlock()
 		}()
 
@@ -205,9 +210,11 @@ func (workerPoolSelf *DefaultWorkerPool) generateWorkerWithMaximum(maximum int) 
 			if workerPoolSelf.IsClosed() {
 				return
 			}
+			verifPoint("wp.worker.loop", workerPoolSelf)
 
 			select {
 			case job := <-workerPoolSelf.jobQueue.GetChannel():
+				verifPoint("wp.worker.got", workerPoolSelf)
 				if job != nil {
 					workerPoolSelf.lock.Lock()
 					isBusy = true
@@ -220,8 +227,10 @@ func (workerPoolSelf *DefaultWorkerPool) generateWorkerWithMaximum(maximum int) 
 					workerPoolSelf.workerBusy--
 					isBusy = false
 					workerPoolSelf.lock.Unlock()
+					verifPoint("wp.worker.jobdone", workerPoolSelf)
 				}
 			case <-time.After(workerPoolSelf.workerExpiryDuration):
+				verifPoint("wp.worker.expired", workerPoolSelf)
 				workerPoolSelf.lock.RLock()
 				workerCount := workerPoolSelf.workerCount
 				if workerCount > workerPoolSelf.workerSizeStandBy ||
@@ -319,6 +328,7 @@ func (workerPoolSelf *DefaultWorkerPool) Close() {
 		return
 	}
 	workerPoolSelf.isClosed.Set(true)
+	verifPoint("wp.close.flagged", workerPoolSelf)
 
 	if workerPoolSelf.isJobQueueClosedWhenClose {
 		workerPoolSelf.jobQueue.Close()
@@ -330,9 +340,11 @@ func (workerPoolSelf *DefaultWorkerPool) Schedule(fn func()) error {
 	if workerPoolSelf.IsClosed() {
 		return ErrWorkerPoolIsClosed
 	}
+	verifPoint("wp.schedule.checked", workerPoolSelf)
 	defer workerPoolSelf.spawnWorkerCh.Offer(1)
 
 	err := workerPoolSelf.jobQueue.Offer(fn)
+	verifPoint("wp.schedule.offered", workerPoolSelf)
 	if err == fpgo.ErrQueueIsFull {
 		return ErrWorkerPoolJobQueueIsFull
 	}
